@@ -211,3 +211,34 @@ Theorem C08_latin1_c1_refuted :
   exists bytes, Forall is_byte bytes /\ ~ text_kept HLatin1 bytes CfgNone.
 Proof. exact f40_latin1_c1_refuted. Qed.
 Print Assumptions C08_latin1_c1_refuted.
+
+(* ---- the author / committer side (author_strict, commit_with_options; fix F44) ---- *)
+
+(* for i18n.commitEncoding unset or UTF-8: the name git shows for the re-created commit is the
+   name it showed before - for UTF-8 names (code points below the surrogates), windows-1252 names
+   git can decode, and latin-1 names outside F40's class *)
+Theorem C08_author_kept :
+  forall h bytes c out,
+    utf8_cfg c -> Forall is_byte bytes ->
+    ((h = HAbsent \/ h = HUtf8) /\ Forall (fun cp => cp < 55296) (utf8_to_text (length bytes) bytes))
+    \/ (h = HW1252 /\ Forall (fun b => w1252_undefined b = false) bytes)
+    \/ (h = HLatin1 /\ Forall (fun b => b < 128 \/ 159 < b) bytes) ->
+    recreate_name h bytes c = Some out ->
+    git_text (match c with CfgUtf8 => HUtf8 | _ => HAbsent end) out = git_text h bytes.
+Proof. exact author_kept. Qed.
+Print Assumptions C08_author_kept.
+
+(* with i18n.commitEncoding = windows-1252 the name is written in that encoding (before fix F44
+   it stayed UTF-8 under a windows-1252 header): whenever git can decode what was written, it
+   shows the name it showed before *)
+Theorem C08_author_encoded_with_commit_encoding :
+  forall h bytes out,
+    Forall is_byte bytes ->
+    ((h = HAbsent \/ h = HUtf8) /\ Forall (fun cp => cp < 55296) (utf8_to_text (length bytes) bytes))
+    \/ (h = HW1252 /\ Forall (fun b => w1252_undefined b = false) bytes)
+    \/ (h = HLatin1 /\ Forall (fun b => b < 128 \/ 159 < b) bytes) ->
+    recreate_name h bytes CfgW1252 = Some out ->
+    Forall (fun b => w1252_undefined b = false) out ->
+    git_text HW1252 out = git_text h bytes.
+Proof. exact author_encoded_with_commit_encoding. Qed.
+Print Assumptions C08_author_encoded_with_commit_encoding.
